@@ -129,7 +129,9 @@ func gen(tier string) []proto.Item {
 			items = append(items, proto.Item{Scn: s, Class: v + "/handshake/never-captured", Note: map[string]string{"extra": "0", "handshake_only": "1"}})
 		}
 		// cancellation of the caller's context (the variants that take one) on a grid of instants
-		if vi.Kind == "icmp4" || vi.Kind == "sack" {
+		// (udp and tcp-syn entry points take no context; there the caller's context stands in for the context.Background()
+		// their engine is started on, so that the engine run over the real driver is cancelled: proto.RunScns)
+		if vi.Kind == "icmp4" || vi.Kind == "sack" || v == "udp4" || v == "syn" || v == "synparis" {
 			step := 20
 			if tier == "thorough" {
 				step = 5
